@@ -163,10 +163,17 @@ var_opt_union<T, A> var_opt_union<T, A>::deserialize(std::istream& is, const Ser
   const auto outer_tau_numer = read<double>(is);
   const auto outer_tau_denom = read<uint64_t>(is);
 
+  if (!is.good())
+    throw std::runtime_error("error reading from std::istream");
+
   var_opt_sketch<T, A> gadget = var_opt_sketch<T, A>::deserialize(is, sd, allocator);
 
   if (!is.good())
     throw std::runtime_error("error reading from std::istream"); 
+
+  // the union marks items of the gadget: a sketch image without the gadget flag carries no marks array
+  if (gadget.marks_ == nullptr)
+    throw std::invalid_argument("Possible corruption: the sketch inside a non-empty union image must be a gadget");
 
   return var_opt_union(items_seen, outer_tau_numer, outer_tau_denom, max_k, std::move(gadget), allocator);
 }
@@ -200,6 +207,7 @@ var_opt_union<T, A> var_opt_union<T, A>::deserialize(const void* bytes, size_t s
     return var_opt_union(max_k, allocator);
   }
 
+  ensure_minimum_memory(size, PREAMBLE_LONGS_NON_EMPTY << 3);
   uint64_t items_seen;
   ptr += copy_from_mem(ptr, items_seen);
   double outer_tau_numer;
@@ -209,6 +217,10 @@ var_opt_union<T, A> var_opt_union<T, A>::deserialize(const void* bytes, size_t s
 
   const size_t gadget_size = size - (PREAMBLE_LONGS_NON_EMPTY << 3);
   var_opt_sketch<T, A> gadget = var_opt_sketch<T, A>::deserialize(ptr, gadget_size, sd, allocator);
+
+  // the union marks items of the gadget: a sketch image without the gadget flag carries no marks array
+  if (gadget.marks_ == nullptr)
+    throw std::invalid_argument("Possible corruption: the sketch inside a non-empty union image must be a gadget");
 
   return var_opt_union(items_seen, outer_tau_numer, outer_tau_denom, max_k, std::move(gadget), allocator);
 }
